@@ -502,7 +502,7 @@ def gen_shapes(tier, seed):
             plain.append(dict(n=4, methods=list(mt), arg=0))
     terms = atoms + [("U", K[0], K[1]), ("U", K[1], K[2]), ("U", K[0], K[2]), ("I", K[0], K[1]), ("I", K[1], K[2]),
                      ("Ex", K[0]), ("SS", K[1]), ("Dep", K[0], 0), ("Dep", K[0], 1), ("Dep", K[1], 0), ("Dep", ("obj",), 0),
-                     ("U", K[0], K[1], K[2])]
+                     ("U", K[0], K[1], K[2]), ("CCF", K[0]), ("CCF", K[1]), ("CCF", K[2])]
     rich = []
     for M in (2, 3):
         for mt in itertools.combinations(terms, M):
@@ -524,7 +524,7 @@ def gen_shapes(tier, seed):
     rng.shuffle(kwfam)
     rng.shuffle(rich)
     if tier == "quick":
-        shapes = plain + rich[:150] + kwfam[:40] + twofam[:60] + derfam + [dict(n=n, late=True, derived=None, arg=0)] + [dict(n=n, tunion=[a_, b_], derived=None, arg=0) for a_ in range(3) for b_ in range(3) if a_ != b_]
+        shapes = plain + rich[:150] + [r_ for r_ in rich if sum(1 for t_ in r_['methods'] if t_[0] == 'CCF') >= 2][:40] + kwfam[:40] + twofam[:60] + derfam + [dict(n=n, late=True, derived=None, arg=0)] + [dict(n=n, tunion=[a_, b_], derived=None, arg=0) for a_ in range(3) for b_ in range(3) if a_ != b_]
     else:
         shapes = plain + rich[:260] + kwfam + twofam[:400] + derfam + [dict(n=n, late=True, derived=None, arg=0)] + [dict(n=n, tunion=[a_, b_], derived=None, arg=0) for a_ in range(3) for b_ in range(3) if a_ != b_]
         for _ in range(40):
